@@ -145,6 +145,15 @@ func (rpcsim) Generate(rng *Rand, prop, tier string) *Script {
 	for i := 0; i < nops; i++ {
 		if i == faultAt {
 			s.Ops = append(s.Ops, Op{K: "fault", A: int64(rng.Intn(7))})
+			if rng.Bool(50) {
+				// requests issued well after the failure
+				s.Ops = append(s.Ops, Op{K: "adv", A: int64(rng.Range(6000, 9000))})
+				for k, m := 0, rng.Range(1, 3); k < m; k++ {
+					typ := []int64{tRead, tWrite, tSync, tUnmap, tPing}[rng.Intn(5)]
+					s.Ops = append(s.Ops, Op{K: "op", A: typ, B: int64(rng.Range(1, 16)) * 512})
+					s.Ops = append(s.Ops, Op{K: "adv", A: int64(rng.Range(3100, 4000))})
+				}
+			}
 			continue
 		}
 		r := rng.Intn(100)
@@ -734,6 +743,14 @@ func (rr *rpcRun) checkProgress() {
 				}
 			}
 			o.checked = true
+		}
+		// "every later request on that connection fails promptly": a request issued well after the client
+		// has learnt of the failure (5 simulated seconds: propagation + the client's own 2 s grace sleep)
+		// may not wait for its deadline
+		if rr.poisoned && o.issued >= rr.poisonedAt+5*time.Second && rr.s.Cfg["mode"] == 0 {
+			if (o.done && o.doneAt-o.issued > 3*time.Second) || (!o.done && now-o.issued > 3*time.Second) {
+				rr.viol("later-request-not-failed-promptly", "operation %d (type %d) was issued at %v, %v after the connection had failed, and was still pending 3 s later (deadline %v)", o.idx, o.typ, o.issued, o.issued-rr.poisonedAt, deadlineOf(o))
+			}
 		}
 		if !o.done {
 			// bounded completion
